@@ -73,7 +73,7 @@ static FRAMES_JSON: OnceLock<J> = OnceLock::new();
 
 fn frames_json() -> &'static J {
 	FRAMES_JSON.get_or_init(|| {
-		let txt = std::fs::read("/repo/gen/resources/frames.json").unwrap_or_else(|e| machinery(&format!("cannot read frames.json: {}", e)));
+		let txt = std::fs::read(format!("{}/gen/resources/frames.json", repo_home())).unwrap_or_else(|e| machinery(&format!("cannot read frames.json: {}", e)));
 		parse_json(&txt).unwrap_or_else(|e| machinery(&format!("frames.json does not parse: {}", e)))
 	})
 }
